@@ -2,6 +2,7 @@
 what was expected and what is observed now."""
 import json
 import os
+import sys
 import subprocess
 
 import common
@@ -60,6 +61,12 @@ def main(path):
         root = os.path.join(d, 'ws')
         files = {k: (common.s2b(v[0]), v[1]) for k, v in case['files'].items()}
         ws.make_ws(root, files, {k: common.s2b(v) for k, v in case['patches'].items()}, case['series'], applied=case.get('applied'))
+        if case.get('applied_raw') is not None:
+            os.makedirs(os.path.join(root, '.pc'), exist_ok=True)
+            if case['applied_raw'] == 'a directory':
+                os.mkdir(os.path.join(root, '.pc', 'applied-patches'))
+            else:
+                open(os.path.join(root, '.pc', 'applied-patches'), 'wb').write(common.s2b(case['applied_raw']))
         for step in case.get('before', []):
             ws.run_rq(root, step['args'], threads=step.get('threads', 1))
         env = None
@@ -98,6 +105,16 @@ def main(path):
         ch = sorted(x for x in set(before) | set(after) if before.get(x) != after.get(x) and not x.startswith('lvl1/ws/'))
         print('changed outside the workspace:', ch)
         print('calls outside the workspace:', [e for e in fsmon.read_log(log, root) if '/sentinel/' in e[2] and '/lvl1/ws' not in e[2]][:10])
+    elif kind == 'cli-sentinel-links':
+        common.build(('rq',))
+        sys.path.insert(0, os.path.join(os.path.dirname(__file__), 'props'))
+        import c19
+        r = c19.link_case((case['name'], case['fpkind'], case.get('threads', 1), case.get('backup', 'never')))
+        print('--- links in the tree: %s\n--- patch p1.patch (behind a patch that applies):\n%s' % (json.dumps(case.get('links')), case['patch']))
+        print('--- recorded:', json.dumps(case.get('observed')))
+        print('--- observed now: %s' % sorted(r['outcomes']))
+        for c_, mode, w in r['violations']:
+            print('violation now: %s: %s' % (mode, json.dumps({k: w.get(k) for k in ('expected', 'observed')})))
     else:
         print(json.dumps(doc, indent=1))
     return 0
